@@ -45,7 +45,7 @@ import (
 //	   bools "true"/"false". Unused for nil, struct{}, map, *int; []any holds ints.
 type Arg struct {
 	T string   `json:"t"`
-	V []string `json:"v,omitempty"`
+	V []string `json:"v"` // null = nil slice / no value, [] = empty non-nil slice
 }
 
 // Family of a constructor.
